@@ -736,6 +736,18 @@ def bit_flag_cross_product():
     return res
 
 
+def witness_alias_many(name="walias3"):
+    """a value with FOUR names and one with two: every alias -- the middle ones too -- is a declared name that
+    ValueMap / ParseEnum / every decoder must accept; a fixed part of every C12 run"""
+    T = ("ident", "Color")
+    return hand_spec(name, [("Color", "int16")],
+                     [[(["ColorRed"], T, [lit(1)]), (["ColorScarlet"], T, [("ref", "ColorRed")]),
+                       (["Crimson"], T, [("ref", "ColorRed")]), (["ColorRuby"], T, [lit(1)]),
+                       (["ColorBlue"], T, [lit(2)]), (["ColorNavy"], T, [("ref", "ColorBlue")]),
+                       (["ColorGreen"], T, [lit(-3)])]],
+                     [("Color", {"json": True, "text": True, "sql": True})])
+
+
 def witness_big(name="wbig"):
     """uint64 values above MaxInt64 (second half of K_enum_neg / K_enum_sort_unsigned)"""
     T = ("ident", "Big")
